@@ -243,3 +243,115 @@ Definition retry_coord_ok (holders : list peer) (t : Z) (excluded : list peer) (
      | Some sub => subset_ok holders t excluded self (ev_readies evs) sub
      | None => true
      end.
+
+(* ---------------------------------------------------------------------------------------------- *)
+(* The waits with time (tss/coordinator.go waitForStart's coordinatorTimeoutTicker next to the
+   watchExecution ticker).  Messages carry arrival times (ms after the wait began).
+
+     [deadline]  when waitForStart's ticker fires next: time.NewTicker(timeout) at the beginning, and
+                 ONLY an initiate message whose sender passes the coordinator check re-arms it
+                 (coordinatorTimeoutTicker.Reset(timeout)); its first tick ends the wait with
+                 CoordinatorError{coordinator}
+     [tto]       the watcher's ticker (c.TssTimeout), never re-armed: "tss process timed out"
+     [horizon]   how long the relayer is watched
+
+   [tw_run] = what the relayer did and how the observation ended: by one of the two tickers, or still
+   waiting / still running at the horizon, or finished by the coordinator's fail / undecodable start
+   message. *)
+
+Inductive tend := TWaiting | TRunning | TFinished | TCoordTimeout | TWatchTimeout.
+
+Definition tend_of (st : wstate) : tend :=
+  match st with Waiting => TWaiting | Running => TRunning | Finished => TFinished end.
+
+(* which ticker ends the present state, and when *)
+Definition expiry (deadline tto : N) (st : wstate) : N * tend :=
+  match st with
+  | Waiting => if (deadline <? tto)%N then (deadline, TCoordTimeout) else (tto, TWatchTimeout)
+  | _ => (tto, TWatchTimeout)
+  end.
+
+Definition rearm (c : option peer) (cto deadline : N) (st : wstate) (at_ : N) (m : wmsg) : N :=
+  match st, m with
+  | Waiting, MInitiate f => if from_ok c f then (at_ + cto)%N else deadline
+  | _, _ => deadline
+  end.
+
+Fixpoint tw_run (wc c : option peer) (cto tto horizon deadline : N) (st : wstate) (msgs : list (N * wmsg))
+  : list wout * tend :=
+  match msgs with
+  | [] =>
+      match st with
+      | Finished => ([], TFinished)
+      | _ => let (e, k) := expiry deadline tto st in ([], if (e <? horizon)%N then k else tend_of st)
+      end
+  | (at_, m) :: r =>
+      match st with
+      | Finished => ([], TFinished)
+      | _ =>
+          let (e, k) := expiry deadline tto st in
+          if (e <=? at_)%N then ([], k)
+          else
+            let (st', o) := wait_step2 wc c st m in
+            let (o', k') := tw_run wc c cto tto horizon (rearm c cto deadline st at_ m) st' r in
+            (o ++ o', k')
+      end
+  end.
+
+(* the first attempt of a relayer whose coordinator is [c]: Execute's watcher is told [c] too *)
+Definition timed_first (c : peer) (cto tto horizon : N) (msgs : list (N * wmsg)) : list wout * tend :=
+  tw_run (Some c) (Some c) cto tto horizon cto Waiting msgs.
+
+(* the retried attempt of a relayer that lost the re-election to [c2]: handleError's watcher is told
+   the empty id *)
+Definition timed_retry (c2 : peer) (cto tto horizon : N) (msgs : list (N * wmsg)) : list wout * tend :=
+  tw_run None (Some c2) cto tto horizon cto Waiting msgs.
+
+(* arrival times do not decrease, and everything arrives while the relayer is watched *)
+Fixpoint sorted_times (msgs : list (N * wmsg)) : bool :=
+  match msgs with
+  | [] => true
+  | x :: r => forallb (fun y : N * wmsg => (fst x <=? fst y)%N) r && sorted_times r
+  end.
+
+Definition in_horizon (horizon : N) (msgs : list (N * wmsg)) : bool :=
+  forallb (fun x : N * wmsg => (fst x <? horizon)%N) msgs.
+
+Definition own_msgs (c : peer) (msgs : list (N * wmsg)) : list (N * wmsg) :=
+  filter (fun x : N * wmsg => from_is c (snd x)) msgs.
+
+Definition tend_eqb (a b : tend) : bool :=
+  match a, b with
+  | TWaiting, TWaiting | TRunning, TRunning | TFinished, TFinished
+  | TCoordTimeout, TCoordTimeout | TWatchTimeout, TWatchTimeout => true
+  | _, _ => false
+  end.
+
+Definition wout_eqb (a b : wout) : bool :=
+  match a, b with
+  | OReady p, OReady q => N.eqb p q
+  | ORun l, ORun l' => list_peer_eqb l l'
+  | OBadStart, OBadStart => true
+  | OAbort, OAbort => true
+  | _, _ => false
+  end.
+
+Fixpoint wouts_eqb (a b : list wout) : bool :=
+  match a, b with
+  | [], [] => true
+  | x :: a', y :: b' => wout_eqb x y && wouts_eqb a' b'
+  | _, _ => false
+  end.
+
+Definition tobs_eqb (a b : list wout * tend) : bool :=
+  wouts_eqb (fst a) (fst b) && tend_eqb (snd a) (snd b).
+
+(* Specification used as judge of the timed cases: the relayer was watched twice, once fed [msgs] and
+   once fed only the coordinator's own messages of [msgs] (same arrival times): what it did and how
+   the wait ended - in particular WHETHER AND BY WHICH TICKER it timed out within the horizon - is the
+   same.  Messages of other peers are ignored: they neither move the relayer nor keep it waiting. *)
+Definition timed_ignored (c : peer) (horizon : N) (msgs : list (N * wmsg))
+           (with_all with_own : list wout * tend) : bool :=
+  if sorted_times msgs && in_horizon horizon msgs
+  then tobs_eqb with_all with_own && outs_justified c (map snd msgs) (fst with_all)
+  else true.
